@@ -53,6 +53,28 @@ theorem mintTail_hold (cfg : MintCfg) (blocked : Addr → Bool) (c amt : Nat) (b
       simp [hne, hne']
       omega
 
+/-- with the ecosystem pool not blocked the send succeeds: the pool receives the amount, the module
+    account keeps nothing of it -/
+theorem mintTail_to_eco (cfg : MintCfg) (blocked : Addr → Bool) (c amt : Nat) (b : Bank)
+    (hne : cfg.ecoPool ≠ cfg.module) (hnb : blocked cfg.ecoPool = false) :
+    (mintTail cfg blocked c amt b).bank.bal cfg.ecoPool cfg.denom = b.bal cfg.ecoPool cfg.denom + amt ∧
+    (mintTail cfg blocked c amt b).bank.bal cfg.module cfg.denom = b.bal cfg.module cfg.denom := by
+  have hne' : cfg.module ≠ cfg.ecoPool := fun e => hne e.symm
+  have hc : coinsGet [(cfg.denom, amt)] cfg.denom = amt := by simp [coinsGet]
+  have hbal : (mintCoins b cfg.module [(cfg.denom, amt)]).bal cfg.module cfg.denom = b.bal cfg.module cfg.denom + amt := by
+    rw [bal_mintCoins, hc]; simp
+  have hhas : hasCoins (mintCoins b cfg.module [(cfg.denom, amt)]) cfg.module [(cfg.denom, amt)] = true := by
+    simp only [hasCoins, Bool.and_true, decide_eq_true_eq]; omega
+  have hs : sendModuleToAccount blocked (mintCoins b cfg.module [(cfg.denom, amt)]) cfg.module cfg.ecoPool [(cfg.denom, amt)]
+      = some (addCoins (subCoins (mintCoins b cfg.module [(cfg.denom, amt)]) cfg.module [(cfg.denom, amt)]) cfg.ecoPool [(cfg.denom, amt)]) := by
+    unfold sendModuleToAccount sendCoins
+    rw [hnb, hhas]; simp
+  unfold mintTail
+  simp only [hs]
+  constructor
+  · rw [bal_addCoins, bal_subCoins, bal_mintCoins, hc]; simp [hne]
+  · rw [bal_addCoins, bal_subCoins, hbal, hc]; simp [hne']
+
 /-- other accounts and other denoms are untouched -/
 theorem mintTail_other (cfg : MintCfg) (blocked : Addr → Bool) (c amt : Nat) (b : Bank) (a : Addr) (d : Denom)
     (h1 : a ≠ cfg.ecoPool) (h2 : a ≠ cfg.module) :
